@@ -95,15 +95,30 @@ func (s cpxNodeSpec) apply(cfg *config.Local) {
 // cpxStores: the node writes catchpoint files.
 func cpxStores(cfg config.Local) bool { return cfg.StoresCatchpoints() }
 
+const (
+	cpxStoreDrawn = iota
+	cpxStoreMem
+	cpxStoreDisk
+)
+
 // cpxAddNode opens an additional ledger on the world's genesis. The caller feeds it blocks with cpxFeed and must
 // close it (cpxCloseNode) before w.Close().
-func cpxAddNode(w *engcWorld, t *rapid.T, name string, spec cpxNodeSpec, forceNoLRU, forceMem bool) *engcNode {
+//
+// storage: cpxStoreDrawn (memory 2/3, disk 1/3 like the engine), cpxStoreMem, cpxStoreDisk.
+func cpxAddNode(w *engcWorld, t *rapid.T, name string, spec cpxNodeSpec, forceNoLRU bool, storage int) *engcNode {
 	n := &engcNode{Name: name, w: w, Cfg: engcDrawCfg(t, name)}
 	if forceNoLRU {
 		n.Cfg.DisableLedgerLRUCache = true
 	}
 	spec.apply(&n.Cfg)
-	n.OnDisk = !forceMem && rapid.IntRange(0, 2).Draw(t, name+".onDisk") == 0
+	switch storage {
+	case cpxStoreMem:
+		n.OnDisk = false
+	case cpxStoreDisk:
+		n.OnDisk = true
+	default:
+		n.OnDisk = rapid.IntRange(0, 2).Draw(t, name+".onDisk") == 0
+	}
 	n.prefix = fmt.Sprintf("%s/%s-%d", w.dir, name, engcWorldSeq.Add(1))
 	n.parked = rapid.IntRange(0, 3).Draw(t, name+".parked") != 0
 	if err := n.open(); err != nil {
